@@ -434,7 +434,7 @@ class C08(core.Check):
         'effect:mute', 'effect:include', 'effect:origin', 'effect:zone-switch', 'starts-in-named-zone', 'effect:unmute-inside-branch-while-muted', 'if:bare-literal', 'if:bare-symbol', 'if:bare-negative', 'if:text-comparison', 'if:op==', 'if:op!=',
         'if:op>', 'if:op>=', 'if:op<', 'if:op<=', 'ctx:unsel:nested-in-unselected', 'ctx:unsel:earlier-branch-taken',
         'ctx:unsel:condition-false', 'numeric-vs-text-disagree', 'stray:else', 'stray:elif', 'stray:endif', 'stray:in-included-file', 'same-condition-text-before-and-after-define',
-        'source:cli', 'source:isa', 'condition:shift-operator']}
+        'source:cli', 'source:isa', 'condition:shift-operator', 'condition:alias-symbol-seen-before-its-target-is-defined']}
 
     def finish(self, g, rng, extra_tags=()):
         items = g.items
@@ -574,6 +574,20 @@ class C08(core.Check):
                        'meta': {'model': {'kind': 'ACCEPT', 'image': bytes([3 if truth else 4, 5]).hex(), 'undefined_first': may_refuse,
                                           'why_refusable': 'a comparison written without blanks around its operator may be refused'}, 'markers': {}},
                        'tags': ['condition:comparison-without-blanks' if may_refuse else 'condition:shift-operator', 'expect:ACCEPT']}
+        # a symbol that stands for another symbol, looked at before the other one is defined (on a line of a branch that is not
+        # compiled): a condition reached after the definition sees the value of that moment
+        for mention in (['#ifdef C08_NEVER', '.byte WIDTH_Q', '#endif'], ['#if 0', 'ldi WIDTH_Q', '#endif'], ['#ifdef C08_NEVER', '#if WIDTH_Q == 16', '.byte 9', '#endif', '#endif'],
+                        ['#if 1', '#elif WIDTH_Q', '.byte 9', '#endif'], []):
+            for val, cond_txt, truth in (('16', 'WIDTH_Q == 16', True), ('8', 'WIDTH_Q == 16', False), ('0', 'WIDTH_Q', False), ('2', 'WIDTH_Q >= 2', True),
+                                         ('(1 << 4)', 'WIDTH_Q == 16', True)):
+                for kind_ in ('if', 'elif'):
+                    head = [f'#if {cond_txt}'] if kind_ == 'if' else ['#if 0', '.byte 9', f'#elif {cond_txt}']
+                    src = ['#define WIDTH_Q BUS_Q'] + mention + [f'#define BUS_Q {val}'] + head + ['.byte 3', '#else', '.byte 4', '#endif', '.byte WIDTH_Q + 1']
+                    v_ = {'16': 16, '8': 8, '0': 0, '2': 2, '(1 << 4)': 16}[val]
+                    yield {'runs': [{'files': {fn0: text0, 'p.asm': '\n'.join(src) + '\n'},
+                                     'argv': ['compile', '-c', fn0, 'p.asm', '-o', 'out.bin'], 'probes': ['steps', 'cond'], 'step_limit': 500000}],
+                           'meta': {'model': {'kind': 'ACCEPT', 'image': bytes([3 if truth else 4, v_ + 1]).hex()}, 'markers': {}},
+                           'tags': ['condition:alias-symbol-seen-before-its-target-is-defined' if mention else 'condition:alias-symbol', 'expect:ACCEPT']}
         if tier == 'thorough':
             yield from self.sweep()
 
